@@ -702,7 +702,7 @@ def py_rules() -> Rules:
 			('rule', [
 				('symbol', 'string'),
 				('__empty__', ''),
-				('regexp', '/\'([^\'\\\\]*(\\\\\')?)*\'|"([^"\\\\]*(\\\\")?)*"/')
+				('regexp', '/\'(?:[^\'\\\\]|\\\\\')*\'|"(?:[^"\\\\]|\\\\")*"/')
 			]),
 			('rule', [
 				('symbol', 'digit'),
